@@ -348,7 +348,8 @@ func (x *Exec) heapWF(key string, m *Term, a0 *Term) {
 	inRange := func(t *Term) *Term { return And(Le(IntLit(0), t), Lt(t, a0)) }
 	sliceOK := func(t *Term) *Term {
 		return And(Le(IntLit(0), mk("s-arr", "", IntS, nil, t)), Lt(mk("s-arr", "", IntS, nil, t), a0),
-			Le(IntLit(0), mk("s-off", "", IntS, nil, t)), Le(IntLit(0), mk("s-len", "", IntS, nil, t)))
+			Le(IntLit(0), mk("s-off", "", IntS, nil, t)), Le(IntLit(0), mk("s-len", "", IntS, nil, t)),
+			Le(mk("s-len", "", IntS, nil, t), mk("s-cap", "", IntS, nil, t)))
 	}
 	switch {
 	case srt.Rng == IntS && isRef:
